@@ -105,6 +105,7 @@ type Exec struct {
 	timeAction  bool
 	quantum     time.Duration
 	timeDead    bool
+	free        bool
 	idleDead    bool
 	// IdleWaits counts the times the scheduler had nothing to choose and let virtual time run.
 	IdleWaits int
@@ -194,11 +195,23 @@ var hookMu sync.Mutex
 // torn down: the caller must fail the operation.
 func (x *Exec) Gate(ev Event) int { return x.gate(ev, nil) }
 
+// freePrefix marks a free-running execution (see Free).
+var freePrefix = []string{"\x00free"}
+
 func (x *Exec) gate(ev Event, enabled func() bool) int {
 	x.mu.Lock()
 	if x.aborting {
 		x.mu.Unlock()
 		return -1
+	}
+	if x.free {
+		x.Trace = append(x.Trace, ev.Key)
+		x.mu.Unlock()
+		for enabled != nil && !enabled() {
+			runtime.Gosched()
+		}
+		runtime.Gosched()
+		return 0
 	}
 	if len(ev.Alts) == 0 {
 		ev.Alts = []string{"ok"}
@@ -552,7 +565,11 @@ func runOne(t *testing.T, sc *Scenario, opt *Options, prefix []string) *Exec {
 		if maxSteps <= 0 {
 			maxSteps = 2000
 		}
-		if opt.LockPoints {
+		x.free = len(prefix) == 1 && prefix[0] == freePrefix[0]
+		if x.free {
+			x.prefix = nil
+		}
+		if opt.LockPoints && !x.free {
 			vsync.Hook = func(kind string, _ any, free func() bool) { x.LockPoint(kind, free) }
 			defer func() { vsync.Hook = nil }()
 		}
@@ -563,6 +580,17 @@ func runOne(t *testing.T, sc *Scenario, opt *Options, prefix []string) *Exec {
 			live, np := x.live, len(x.pend)
 			x.mu.Unlock()
 			if live == 0 && np == 0 {
+				break
+			}
+			if x.free {
+				if live == 0 {
+					break
+				}
+				x.IdleWaits++
+				if x.letTimePass() {
+					continue
+				}
+				x.Deadlock = true
 				break
 			}
 			if sc.OnStep != nil {
@@ -653,10 +681,30 @@ type work struct {
 	sleep  []string
 }
 
+// Free > 0 turns every Explore into Free free-running executions of the scenario (race pass): gates
+// return their default answer at once, lock points are off, actions are never taken, no oracle is
+// evaluated.  Which interleaving runs is the Go runtime's choice; the pass exists for the race detector,
+// which reports accesses that are unordered by happens-before whatever the timing was.
+var Free int
+
+// FreeExecs counts the executions of free mode (evidence).
+var FreeExecs int64
+
 // Explore enumerates all executions within the bound.  check is called for
 // every execution (outside the bubble).
 func Explore(t *testing.T, sc Scenario, opt Options, check func(x *Exec)) Stats {
 	var st Stats
+	if Free > 0 {
+		for i := 0; i < Free; i++ {
+			x := runOne(t, &sc, &opt, freePrefix)
+			st.Execs++
+			FreeExecs++
+			if sc.After != nil {
+				sc.After(x)
+			}
+		}
+		return st
+	}
 	if opt.Prefix != nil {
 		if opt.BeforeExec != nil {
 			opt.BeforeExec(opt.Prefix)
